@@ -60,6 +60,7 @@ type link struct {
 	peerReset  bool
 	ordinal  int // k-th link of its endpoint
 	onData   func()
+	hbSent   []sentItem
 	unblockedAt time.Duration
 }
 
@@ -185,6 +186,26 @@ func (l *link) send(kind int, split bool) error {
 		l.txErr = err
 	}
 	return err
+}
+
+// sendHeartbeat sends a standard HEARTBEAT with the given autopilot type.
+func (l *link) sendHeartbeat(autopilot byte) error {
+	dsim.EnsureReleased("peer-hb")
+	f := &ref.Frame{V2: l.v2, Seq: l.seq, Sys: l.sys, Comp: l.comp, MsgID: 0}
+	l.seq++
+	vals := ref.Values{{Elems: []uint64{2}}, {Elems: []uint64{uint64(autopilot)}}, {Elems: []uint64{0}}, {Elems: []uint64{0}}, {Elems: []uint64{4}}, {Elems: []uint64{3}}}
+	f.Payload = ref.DefHeartbeat.Encode(vals, l.v2)
+	if k := l.e.cfg.inKey; k != nil {
+		f.Incompat = ref.IncompatSigned
+	}
+	f.Checksum = f.ComputeChecksum(ref.DefHeartbeat.CRCExtra())
+	if k := l.e.cfg.inKey; k != nil {
+		sign(f, *k, byte(l.id), sigTicks())
+	}
+	it := sentItem{kind: sendValid, f: f, bytes: f.Encode(), t: l.e.now(), index: 1 << 30}
+	l.hbSent = append(l.hbSent, it)
+	dsim.Record("peer-hb", fmt.Sprintf("%s autopilot=%d %x", l.name, autopilot, it.bytes), nil, int64(l.id), int64(autopilot))
+	return l.transmit(it.bytes, false)
 }
 
 // rxLoop reads everything the node writes on this link.
